@@ -11,6 +11,7 @@ import numpy
 
 from mpv import arr, cmdgen
 
+ANCHORS = ['mpilot/utils.py:insure_fuzzy', 'mpilot/libraries/eems/fuzzy.py:FuzzyXOr.execute', 'mpilot/libraries/eems/fuzzy.py:CvtToFuzzy.execute', 'mpilot/libraries/eems/fuzzy.py:FuzzyWeightedUnion.execute', 'mpilot/libraries/eems/fuzzy.py:CvtToFuzzyCat.execute']   # repository functions the workload must enter (reported as anchors_reached / anchors_missed)
 LEVEL = "exploration"
 RULE = ("the 14 fuzzy-producing commands x hostile parameter sets x hostile finite inputs (lattice, wild floats 1e-9..1e9, "
         "int64/float64/float32/int32/int16) x shapes rank 1-3 x masks; distinct by (command, n, rank, dtypes, mask class, parameter-"
